@@ -49,15 +49,16 @@ impl Style {
         if self.rng.chance(1, 10) {
             return format!("<![CDATA[{}]]>", self.long_text());
         }
-        let opts = ["<![CDATA[c]]>", "<![CDATA[]]>", "<![CDATA[ <b>not a tag</b> ]]>", "<![CDATA[&amp;]]>"];
+        let opts = ["<![CDATA[c]]>", "<![CDATA[]]>", "<![CDATA[ <b>not a tag</b> ]]>", "<![CDATA[&amp;]]>", "<![CDATA[ \n ]]>", "<![CDATA[ ]]>"];
         self.rng.pick(&opts).to_string()
     }
     fn misc(&mut self) -> String {
-        let opts = ["<!--c-->", "<!-- a <b> comment -->", "<?pi?>", "<?target data?>", "<!---->"];
+        let opts = ["<!--c-->", "<!-- a <b> comment -->", "<?pi?>", "<?target data?>", "<!---->", "<!-- a -- b -->", "<!--- banner --->", "<?xml-stylesheet href=\"a.xsl\"?>", "<!-- <![CDATA[ x ]]> -->"];
         self.rng.pick(&opts).to_string()
     }
     fn value(&mut self) -> String {
-        let opts = ["", "v", "1", "a b", "&amp;", "x=y", "<", "Ж", "&ent;", "a&b", ">", "/"];
+        // the values must never matter: booleans, nil markers, broken entity references, long ones
+        let opts = ["", "v", "1", "a b", "&amp;", "x=y", "<", "Ж", "&ent;", "a&b", ">", "/", "true", "false", "0", "TRUE", "&nbsp;", "&", "&#xZZ;", "nil", "null", "\t", "http://www.w3.org/2001/XMLSchema-instance", "{}", "%s"];
         let v = self.rng.pick(&opts).to_string();
         // '<' is accepted by quick-xml inside a quoted value
         if self.rng.chance(1, 2) {
@@ -67,7 +68,8 @@ impl Style {
         }
     }
     fn sp(&mut self) -> &'static str {
-        *self.rng.pick(&[" ", " ", " ", "  ", "\n", "\t "])
+        // attributes may be separated by any white space, not only blanks
+        *self.rng.pick(&[" ", " ", " ", "  ", "\n", "\t ", "\t", "\n\t\t", "\r\n", "\r"])
     }
 }
 
@@ -117,7 +119,16 @@ pub fn write_doc(top: &[Node], st: &mut Style) -> String {
     let mut seen_root = false;
     for (i, n) in top.iter().enumerate() {
         match n {
-            Node::Misc if i == 0 && st.rng.chance(1, 2) => out.push_str("<?xml version=\"1.0\" encoding=\"UTF-8\"?>"),
+            Node::Misc if i == 0 && st.rng.chance(1, 2) => out.push_str(*st.rng.pick(&[
+                "<?xml version=\"1.0\" encoding=\"UTF-8\"?>",
+                "<?xml version=\"1.0\" encoding=\"UTF-8\"?>",
+                "<?xml version=\"1.0\"?>",
+                "<?xml version='1.0' encoding='utf-8' standalone='yes'?>",
+                "<?xml version=\"1.0\" encoding=\"ISO-8859-1\"?>",
+                "<?xml version=\"1.1\" encoding=\"US-ASCII\"?>",
+                "<?xml version=\"1.0\" encoding=\"windows-1252\" standalone=\"no\"?>",
+                "<?xml encoding=\"latin1\"?>",
+            ])),
             Node::Misc if !seen_root && st.rng.chance(1, 3) => out.push_str("<!DOCTYPE r [ <!ELEMENT r ANY> ]>"),
             Node::Text => out.push_str(*st.rng.pick(&["\n", " ", "\n\n  "])),
             Node::Elem { .. } => {
